@@ -127,4 +127,7 @@ pub mod verif_hooks {
     pub use super::fold_range::on_folding_range_handler;
     pub use super::semantic_token::semantic_token;
     pub use super::server_capabilities;
+    // the remaining text-sync handlers and the awaitable reload entry point, for the C29 bounded search (add-only)
+    pub use super::text_document::{on_did_close_document, on_did_save_text_document};
+    pub use crate::context::verif_apply_workspace_reload;
 }
